@@ -16,8 +16,9 @@ CLAIM = dict(
           "mutable_flatten / mutable_reshape / mutable_slice changes exactly the designated source cell. "
           "Tied to the C++ by running exhaustive and random operation histories on 17 ndarray_t instantiations x 2 layouts and the "
           "three legacy classes, nm::cast over all kind tags and element types, and write-through over every view index of small shapes. "
-          "Refuted (findings): strides() of a column-major array reports row-major strides; column-major arrays with a clipped shape "
-          "address several indices to one cell; a default-constructed dynamic_ndarray has shape () but no element."),
+          "Refuted (finding, pinned by the suite's ndarray(case10)): strides() of a column-major array reports row-major strides. "
+          "Modelled after the fix batch: column-major clipped-shape strides unclamped, dynamic_ndarray() is a consistent 0-dim array, "
+          "mutable_slice with a single slice compiles."),
     ref="5.20", technique="Coq proof (invariant over histories, refinement of an abstract array) + differential correspondence with the extracted model",
     extra="")
 RULE = ("histories over {resize(shape), write(k-th index, v), copy, assign-from-other(shape)}: exhaustive up to length 3 (quick) / 4 "
@@ -29,10 +30,9 @@ RULE = ("histories over {resize(shape), write(k-th index, v), copy, assign-from-
 THEOREM_STATUS = {"proved": ["C20_init_Inv", "C20_step_preserves_Inv", "C20_history_Inv", "C20_reachable_Inv",
                              "C20_distinct_indices_distinct_cells", "C20_refused_resize_unchanged", "C20_resize_accepts_iff_fits",
                              "C20_cast_preserves", "C20_write_through", "C20_view_index_injective", "C20_hybrid_ndarray",
-                             "C20_dynamic_ndarray_on_domain", "C20_strides_accessor_on_domain"],
+                             "C20_dynamic_ndarray", "C20_strides_accessor_on_domain"],
                   "partial": [],
-                  "refuted": ["C20_dynamic_default_ctor_refuted", "C20_strides_accessor_colmajor_refuted",
-                              "C20_colmajor_clipped_aliasing_refuted"]}
+                  "refuted": ["C20_strides_accessor_colmajor_refuted"]}
 ASSUMPTIONS = ["extents are size_t values whose product does not wrap (C01_no_wrap states the guard)",
                "values of cells the property does not fix (fresh cells after construction or after a successful resize) are not compared"]
 
@@ -143,7 +143,7 @@ def gen_legacy(rng, tier, add):
         add("legacy", "lhist S:%s S:" % cls, "c20l")
         for n in range(1, maxlen + 1):
             for h in itertools.product(al, repeat=n):
-                if cls == "dynamic" and h[0] == "g": continue      # templated operator= on a 0-dim object: nothing to copy
+                if cls == "dynamic" and h[0] == "g": continue      # templated operator= on the 0-dim default object: not expressible
                 add("legacy", "lhist S:%s S:%s" % (cls, ";".join(h)), "c20l")
         dim = {"hybrid12x2": 2, "hybrid6x1": 1, "hybrid12x3": 3}.get(cls)
         for _ in range(nrand):
@@ -263,16 +263,6 @@ def equal(a, b):
 
 def classify(line, impl, spec, model):
     t = line.split(" ")
-    if t[0] == "lhist" and t[1] == "S:dynamic" and "|" in impl and "|" in spec:
-        # default-constructed dynamic_ndarray: shape () (product 1) but data.size() == 0; everything else agrees
-        ri, rs = [r.strip().split("|") for r in impl.split(";")], [r.strip().split("|") for r in spec.split(";")]
-        if len(ri) != len(rs) or any(len(r) != 5 for r in ri + rs): return None
-        hit = False
-        for r, q in zip(ri, rs):
-            if equal("|".join(r), "|".join(q)): continue
-            if r[1] == "" and q[1] == "" and r[3] == "0" and q[3] == "1" and r[:3] == q[:3] and r[4] == q[4]: hit = True
-            else: return None
-        return "dynamic-default-ctor" if hit else None
     if t[0] == "hist" and "|" in impl and "|" in spec:
         kind = t[1][2:]
         ri, rs = [r.strip().split("|") for r in impl.split(";")], [r.strip().split("|") for r in spec.split(";")]
@@ -286,11 +276,4 @@ def classify(line, impl, spec, model):
                     return ",".join(str(prod(e[i + 1:])) for i in range(len(e)))
                 if all(r[2] == rowmajor(r[1]) for r in ri): return "colmajor-strides-accessor"
                 return None
-            # (2) clipped shape + column major: the first record that differs (strides() aside) differs in the
-            #     offset functor's strides
-            if kind.startswith("l"):
-                for r, s in zip(ri, rs):
-                    rr = r[:2] + [s[2]] + r[3:]
-                    if not equal("|".join(rr), "|".join(s)):
-                        return "colmajor-clipped-offset-strides" if (rr[:3] == s[:3] and rr[3] != s[3]) else None
     return None
